@@ -122,6 +122,13 @@ Theorem C06_commute_variants : forall p ps, commute p = Ok ps ->
 Proof. exact commute_variants. Qed.
 Print Assumptions C06_commute_variants.
 
+(* the copies keep every value pattern (a Constant with its value, rel_tol and abs_tol) and only reverse the operands *)
+Theorem C06_commute_swap_keeps_patterns : forall np np', swap_node np = Some np' ->
+  np_ins np' = rev (np_ins np) /\ np_op np' = np_op np /\ np_dom np' = np_dom np /\ np_attrs np' = np_attrs np /\
+  np_other_attrs np' = np_other_attrs np /\ np_other_ins np' = np_other_ins np /\ np_outs np' = np_outs np.
+Proof. exact swap_node_keeps. Qed.
+Print Assumptions C06_commute_swap_keeps_patterns.
+
 Theorem C06_commute_closure : forall fl p g root rm,
   (forall i m, run_commute fl p g root rm = Ok (i, m) ->
      exists sw v, admissible (gp_nodes p) sw /\ variant p sw = Some v /\ run fl v g root rm = Ok m) /\
